@@ -4,9 +4,10 @@ CONSTANTS
  MaxQ = 23
  MaxK = 7
  Margin = 4
- Variants <- V_com2v
- NaiveMaxP = 7
- Mode = "nbr"
+ Variants <- A_com3
+ NaiveMaxP = 5
+ Mode = "acc"
  CheckArith = FALSE
+ SortedBases = TRUE
 INVARIANTS BlockIsDefinition Sound Complete Shape Elements Emit
 CHECK_DEADLOCK FALSE
